@@ -93,6 +93,140 @@ type dualRe struct {
 	smt *Term
 }
 
+var allDuals []*dualRe
+
 func newDual(pat string) *dualRe {
-	return &dualRe{pat: pat, re: regexp.MustCompile("^(?:" + pat + ")$"), smt: smtRegex(pat)}
+	d := &dualRe{pat: pat, re: regexp.MustCompile("^(?:" + pat + ")$"), smt: smtRegex(pat)}
+	allDuals = append(allDuals, d)
+	return d
+}
+
+// reEnds returns the set of end positions of matches of the SMT regular
+// expression re starting at position i of s (an independent evaluator of the
+// SMT-LIB regex operators used by the translation).
+func reEnds(re *Term, s string, i int) map[int]bool {
+	out := map[int]bool{}
+	switch re.Op {
+	case "re.none":
+	case "str.to_re":
+		lit := re.Args[0].S
+		if len(s)-i >= len(lit) && s[i:i+len(lit)] == lit {
+			out[i+len(lit)] = true
+		}
+	case "re.range":
+		if i < len(s) && s[i] >= re.Args[0].S[0] && s[i] <= re.Args[1].S[0] {
+			out[i+1] = true
+		}
+	case "re.union":
+		for _, a := range re.Args {
+			for e := range reEnds(a, s, i) {
+				out[e] = true
+			}
+		}
+	case "re.++":
+		cur := map[int]bool{i: true}
+		for _, a := range re.Args {
+			next := map[int]bool{}
+			for p := range cur {
+				for e := range reEnds(a, s, p) {
+					next[e] = true
+				}
+			}
+			cur = next
+		}
+		return cur
+	case "re.opt":
+		out[i] = true
+		for e := range reEnds(re.Args[0], s, i) {
+			out[e] = true
+		}
+	case "re.*", "re.+":
+		cur := map[int]bool{i: true}
+		if re.Op == "re.*" {
+			out[i] = true
+		}
+		for len(cur) > 0 {
+			next := map[int]bool{}
+			for p := range cur {
+				for e := range reEnds(re.Args[0], s, p) {
+					if !out[e] {
+						out[e] = true
+						next[e] = true
+					}
+				}
+			}
+			cur = next
+		}
+	case "re.loop":
+		var lo, hi int
+		if n, _ := fmt.Sscanf(re.key, "((_ re.loop %d %d)", &lo, &hi); n != 2 {
+			if n, _ := fmt.Sscanf(re.key, "((_ re.^ %d)", &lo); n == 1 {
+				hi = lo
+			} else {
+				panic("reEnds: cannot parse " + re.key)
+			}
+		}
+		cur := map[int]bool{i: true}
+		if lo == 0 {
+			out[i] = true
+		}
+		for k := 1; k <= hi && len(cur) > 0; k++ {
+			next := map[int]bool{}
+			for p := range cur {
+				for e := range reEnds(re.Args[0], s, p) {
+					next[e] = true
+				}
+			}
+			cur = next
+			if k >= lo {
+				for e := range cur {
+					out[e] = true
+				}
+			}
+		}
+	default:
+		panic("reEnds: unsupported " + re.Op)
+	}
+	return out
+}
+
+func reMatches(re *Term, s string) bool { return reEnds(re, s, 0)[len(s)] }
+
+// dualSelfTest compares every Go pattern with its SMT translation on all
+// strings up to length n over an alphabet taken from the pattern.
+func dualSelfTest(n int) (int, string) {
+	count := 0
+	for _, d := range allDuals {
+		seen := map[byte]bool{}
+		var alpha []byte
+		for i := 0; i < len(d.pat) && len(alpha) < 7; i++ {
+			c := d.pat[i]
+			if (c >= '0' && c <= '9' || c >= 'a' && c <= 'z' || c >= 'A' && c <= 'Z' || c == '+' || c == '-' || c == '.' || c == '_' || c == '=') && !seen[c] {
+				seen[c] = true
+				alpha = append(alpha, c)
+			}
+		}
+		alpha = append(alpha, ' ', 0xc3)
+		var rec func(cur []byte) string
+		rec = func(cur []byte) string {
+			count++
+			s := string(cur)
+			if d.re.MatchString(s) != reMatches(d.smt, s) {
+				return fmt.Sprintf("pattern %q on %q: regexp=%v translation=%v", d.pat, s, d.re.MatchString(s), reMatches(d.smt, s))
+			}
+			if len(cur) >= n {
+				return ""
+			}
+			for _, c := range alpha {
+				if r := rec(append(cur, c)); r != "" {
+					return r
+				}
+			}
+			return ""
+		}
+		if r := rec(nil); r != "" {
+			return count, r
+		}
+	}
+	return count, ""
 }
